@@ -214,6 +214,76 @@ CLAIMED = {
         note="Strict reading: a lone CR or LF inside a simple string or error is malformed. Reply contents are not predicted except for PING "
              "and ECHO. GRAPH.* replies depend on this build's Cypher dialect; many templates end in parse errors, which still echo the input.",
         ref="DESIGN.md §4 C22"),
+    "C14": dict(
+        text="FsPersist.tla models <data>/snapshots as a volatile and a durable directory, pending directory operations and written/fsynced "
+             "file data, with one action per file-system step of persist_snapshot (named hook points), Import/Ack of the HTTP handler, "
+             "Crash, PowerLoss (any dependency-closed subset of un-fsynced directory operations, old/torn/new un-fsynced data) and "
+             "Restart. TLC checks on the design (repaired step order) that every restart restores the last acknowledged or the in-flight "
+             "graph for every program counter x crash kind x 1..3 imports, finds the counterexamples of the pinned order / missing fsyncs "
+             "as self-tests, and enumerates the same space for the program observed on the real code. Every history is replayed through "
+             "the real /api/snapshot/import route parked at each hook point, with real fsync observation, materialised power-loss "
+             "directories and the real restore_persisted_snapshots; every event is validated by TLC against FsPersist_Trace.tla. "
+             "FsPersistBoot.tla covers main.rs's boot sequence and is replayed on the real server binary (thorough tier).",
+        note="Strict POSIX durability assumed; creation of snapshots/ and I/O errors not modelled; the graph is abstracted to the set of "
+             "imports it holds; at most 2 crashes or power losses per history; the boot stage (real binary) runs in the thorough tier or "
+             "with VERIF_C14_BOOT=1. Open findings: only the last import is persisted; RocksDB recovery suppresses the snapshot restore.",
+        ref="DESIGN.md §4 C14"),
+    "C13": dict(
+        text="Snapshot.tla states the post-conditions of import_tenant_with_dedup (ok: old dump + snapshot with dedup merges; err: dump "
+             "unchanged) and the import as the code runs it record by record; MC_Snapshot checks the two against each other for every "
+             "pre-existing store (<=2 nodes), snapshot (<=2/3 records, parallel/loop relationships), dedup key choice and failure point, "
+             "and that the pinned rollback violates the property exactly as the deviation predicate says. Each scenario's real exported "
+             ".sgsnap is truncated at every byte offset (quick: every 7th) and bit-flipped, imported with and without dedup keys into "
+             "stores holding matching and non-matching nodes, and the full dump after every call is judged by TLC (Snapshot_Trace.tla).",
+        note="Dedup values lower-case and blank-free; conflicting property values on merge are left open; for flipped files whose altered "
+             "records were applied before the checksum failed the deviation is matched by its signature (only additions to pre-existing "
+             "nodes, nothing created survives). Open finding: merged nodes keep additions after a failed import.",
+        ref="DESIGN.md §4 C13"),
+    "C12": dict(
+        text="SnapshotRT.tla keeps the graph built through the store API in the shape that reaches the file (superseded node versions, "
+             "frozen adjacency, ghosts of deleted frozen relationships, hierarchy declarations), defines the exported records and "
+             "re-imports them with the record-by-record import of Snapshot.tla; TLC checks Import(Export(G)) iso Logical(G) on the design "
+             "and finds each pinned deviation as a counterexample. Graphs (exhaustive small scopes x every class token in every position, "
+             "random histories <=3 nodes/<=3 relationships with version bumps, compaction, deletions, hierarchy declarations) are built "
+             "with the real API, round-tripped through the real export_tenant/import_tenant, abstracted back to tokens, and the "
+             "isomorphism (handles, not ids; multiplicity, direction, type, typed values, label sets, hierarchy declarations) is decided by TLC.",
+        note="Fidelity per value class (one concrete value per class), one boundary token per graph; null property = absent; hierarchy "
+             "reverse flag / measure label not observable. Open findings: unlabelled node gets label \"\"; NaN and +-inf dropped; ghost "
+             "stub edges after compact+delete; maps with a __type key read as scalars; hierarchy over a cycle dropped.",
+        ref="DESIGN.md §4 C12"),
+    "C16": dict(
+        text="Persist.tla models PersistenceManager as WAL + storage + usage counters with every persist_* call split into the atomic steps "
+             "the code performs (quota check, log append, storage write, usage update, return) and a process crash possible at every step "
+             "boundary; TLC checks exhaustively (all sequences of <=4 calls x every crash boundary, restarts, recoveries) that storage is "
+             "always the acknowledged graph plus at most the in-flight operation. Scripts (one per Recover transition, every history over "
+             "a one-node alphabet, crash-free pair sequences, random walks, seeded random-instant kills) are replayed with the operation "
+             "sequence in a child process that abort()s at the hook point; a fresh PersistenceManager on the same directory recovers and "
+             "TLC validates every recovered graph (ids, labels, types, properties) against {acknowledged, acknowledged + in-flight}.",
+        note="One tenant, 2 node ids, 1 relationship id, properties {} or {k:v}, updates carry the full map; creating an existing id and "
+             "deleting a node with relationships are not generated (effect left open by the statement). Crash = process abort (page cache "
+             "survives), no power loss. Only recovery is observed; the crash point is not judged. Replays are a seeded sample of the "
+             "model-checked histories (each costs a RocksDB open).",
+        ref="DESIGN.md §4 C16"),
+    "C18": dict(
+        text="Persist.tla (Mode conc): one process per writer thread (chk -> wal -> put -> inc -> ret), quota 1-2, 2-3 threads, nodes and "
+             "relationships; TLC checks that an admission counting reservations keeps the quota in every interleaving, refusals leave "
+             "nothing in storage or the log, usage = persisted at quiescence and after recovery, and every call returns under fair "
+             "scheduling. ALL interleavings of 2 threads and a transition cover of 3 are replayed on the real code by parking threads at "
+             "the hook points and releasing them in TLC's order; stored ids are validated after every step, counters at quiescence and "
+             "after two recoveries on the same manager. Free-running runs are recorded with sequence numbers taken inside the usage lock "
+             "and validated too. The pinned tree's check-then-act race is the open finding KF_C18_CheckThenActRace.",
+        note="The race needs deviation KF_C18_CheckThenActRace (admitted although usage + admitted-not-yet-counted >= quota while the "
+             "counter alone is below quota); any other over-admission is a violation. A refusal is never judged wrong by itself. One "
+             "creation per thread, distinct ids, one tenant.",
+        ref="DESIGN.md §4 C18"),
+    "C32": dict(
+        text="The sequential actions of Persist.tla driven through GraphStateMachine::apply: every request sequence of <=2 (quick) / <=3 "
+             "requests, all <=4 over one node, one per reachable graph, incl. relationships to missing nodes, deletions and updates of "
+             "absent ids, empty label lists, is applied to 2-3 state machines on fresh stores; each is shut down, reopened and recovered; "
+             "TLC validates each recovered graph against the effect of the requests in order and against the first replica's graph.",
+        note="Error response => no effect, other response => effect; whether a relationship to a missing node is accepted is left open as "
+             "long as all replicas agree. Timestamps are not compared. Replicas run one after the other, without openraft.",
+        ref="DESIGN.md §4 C32"),
 }
 
 NOT_YET = "check not built yet in this round (planned in DESIGN.md §4); not claimed until its check is green on the unchanged tree"
@@ -262,7 +332,7 @@ def build(root):
     return m
 
 
-HOOK_COMMITS = []
+HOOK_COMMITS = ["db4e1a5", "da76390"]
 
 
 def write(root):
